@@ -131,7 +131,7 @@ def call():
         (5, f1(["gamma", "loggamma", "digamma", "trigamma"], gamma_arg())),
         (3, st.builds(lambda f, s, x: [f, s, x], st.sampled_from(["lowergamma", "uppergamma"]),
                       st.one_of(st.integers(-3, 8).map(I_), st.integers(-7, 15).map(lambda k: q(k, 2)), sym_rest()),
-                      st.one_of(small_exact(), sym_rest(), dbl()))),
+                      st.one_of(small_exact(), sym_rest()))),   # no doubles: the closed forms cancel catastrophically in floating point
         (2, st.builds(lambda x, y: ["beta", x, y], gamma_arg(), gamma_arg())),
         (3, st.builds(lambda n, x: ["polygamma", n, x], st.one_of(st.integers(0, 4).map(I_), sym_rest()),
                       st.one_of(st.integers(-4, 12).map(I_), st.builds(q, st.integers(-9, 20), st.sampled_from([2, 3, 4])), sym_rest()))),
